@@ -10,13 +10,17 @@ HERE = os.path.dirname(os.path.dirname(os.path.abspath(__file__)))
 BEGIN, END = '<!-- SEEDED-BEGIN -->', '<!-- SEEDED-END -->'
 
 OUT_OF_SCOPE = {
+    'I07-1': 'not a violation of the statement: PV reads a float rate as the decimal it is written as; the result moves by a relative 6e-15 '
+             'at 1000 periods (tens of units in the last place where the future value dominates), which a formula evaluated in doubles '
+             'also shows - "to within floating-point rounding" is held at 1e-12 of the terms by `c16.pv` on purpose, and at 16 units in '
+             'the last place only where 1+r and its power are exact doubles',
     'H05-2': 'not a violation of the statement: it changes the outcome only where the harmonic mean has no textbook value (a zero AND a '
              'negative item: 0 instead of #NUM!); the outcome stays the same in every order and grouping, which is all that is demanded there',
     'G01-1': 'not a violation of the statement (as C10-1, C19-8, F05-1): for a range whose corners share a row or a column the end '
-             'cell inherits the $ marker of the start corner on the shared part; coordinates and labels of both cells stay right',
+             'cell inherits the $ marker of the start corner on the shared part; coordinates and labels of both cells stay right [judged so when it was tried; the fifth red-team round reported the same situation against the clean tree and the reading was taken in: the library now delivers the written corners of a one-row / one-column range, `c10.ranges` demands it, and this change no longer applies]',
     'F05-1': 'not a violation of the statement (same situation as C10-1 and C19-8): for a range whose corners share a row or a '
              'column it moves the $ marker from one corner to the other; coordinates and labels of both reported cells stay '
-             'right, and no statement fixes marker attribution between range corners on ties',
+             'right, and no statement fixes marker attribution between range corners on ties [judged so when it was tried; the fifth red-team round reported the same situation against the clean tree and the reading was taken in: the library now delivers the written corners of a one-row / one-column range, `c10.ranges` demands it, and this change no longer applies]',
     'C17-12': 'not a violation of the statement: INT stays value-correct for every input, only the TYPE of a whole result follows the '
               'argument (3.0 stays a float, TRUE a logical); the difference shows where CONCATENATE / LEN spell a whole float with '
               '".0", which no statement covers (under & a whole float joins as its digits since the whole-float repair)',
@@ -30,12 +34,12 @@ OUT_OF_SCOPE = {
               'for ("A1?", "@A1" evaluate as A1) - which characters the formula language rejects is fixed by no statement',
     'C19-8': 'not a violation of the statement (same situation as C10-1): for a range whose corners share a row or column it '
              'moves a $ marker from one corner to the other; coordinates and labels of both corners stay right, and the '
-             'statements fix marker fidelity for single cells and for label decomposition, not for range corners on ties',
+             'statements fix marker fidelity for single cells and for label decomposition, not for range corners on ties [judged so when it was tried; the fifth red-team round reported the same situation against the clean tree and the reading was taken in: the library now delivers the written corners of a one-row / one-column range, `c10.ranges` demands it, and this change no longer applies]',
     'C06-6': 'not a violation of any statement: it shifts the serial of date-times inside 28 February 1900 (not at midnight) by '
              'one; before 1 March 1900 the statements (C13) demand only the date -> serial -> date round trip and strict '
              'monotonicity, both of which still hold, and C06 speaks of "their serial" without fixing it there',
     'C10-1': 'not a violation of the statement: it only moves a $ marker between two corners that share a row; the '
-             'statement fixes coordinates and labels of range corners, not marker attribution on ties',
+             'statement fixes coordinates and labels of range corners, not marker attribution on ties [judged so when it was tried; the fifth red-team round reported the same situation against the clean tree and the reading was taken in: the library now delivers the written corners of a one-row / one-column range, `c10.ranges` demands it, and this change no longer applies]',
     'C13-4': 'not a violation of the statement as read here: DATEVALUE of date-time TEXT dropping the time of day is what '
              'Excel does; the statement speaks of date-times and their serials, not of which function reads the time out of '
              'text (C14 checks HOUR/MINUTE/SECOND of ISO text)',
